@@ -4,6 +4,7 @@ import (
 	"go/token"
 	"go/types"
 	"strconv"
+	"strings"
 
 	"golang.org/x/tools/go/ssa"
 )
@@ -20,6 +21,13 @@ func (x *Exec) step(fr *Frame, ins ssa.Instruction, st *State) []alt {
 	case *ssa.Alloc:
 		return one(st, mk("alloc", fr.ctx+"/"+funcKey(fr.fn)+"."+ins.Name()+"/"+ins.Comment, ins.Type().(*types.Pointer).Elem(), x.curMark()))
 	case *ssa.MakeSlice:
+		if bc, ok := x.C.(BoundsClient); ok {
+			sz := x.val(fr, ins.Len)
+			bc.OnBounds(x, st, fr, ins, "make", nil, sz, x.val(fr, ins.Cap))
+			m := mk("madeslice", fr.ctx+"/"+funcKey(fr.fn)+"."+ins.Name(), ins.Type(), x.curMark())
+			st.mem["len:"+m.key] = cell{m, sz}
+			return one(st, m)
+		}
 		return one(st, tList(false, nil))
 	case *ssa.MakeMap:
 		m := mk("mapobj", fr.ctx+"/"+funcKey(fr.fn)+"."+ins.Name(), ins.Type(), x.curMark())
@@ -39,6 +47,11 @@ func (x *Exec) step(fr *Frame, ins ssa.Instruction, st *State) []alt {
 		return one(st, x.val(fr, ins.X))
 	case *ssa.Convert:
 		v := x.val(fr, ins.X)
+		if x.StrictConv {
+			if t := x.strictConvert(st, v, ins.X.Type(), ins.Type()); t != nil {
+				return one(st, t)
+			}
+		}
 		// string <-> []byte conversions and numeric widenings keep the term;
 		// the type is irrelevant to the path kinds tracked here.
 		return one(st, v)
@@ -63,10 +76,16 @@ func (x *Exec) step(fr *Frame, ins ssa.Instruction, st *State) []alt {
 	case *ssa.IndexAddr:
 		base := x.val(fr, ins.X)
 		idx := x.val(fr, ins.Index)
+		if bc, ok := x.C.(BoundsClient); ok {
+			bc.OnBounds(x, st, fr, ins, "index", base, idx, nil)
+		}
 		return one(st, mk("index", "", nil, base, idx))
 	case *ssa.Index:
 		base := x.val(fr, ins.X)
 		idx := x.val(fr, ins.Index)
+		if bc, ok := x.C.(BoundsClient); ok {
+			bc.OnBounds(x, st, fr, ins, "index", base, idx, nil)
+		}
 		return one(st, mk("elem", "", ins.Type(), base, idx))
 	case *ssa.Slice:
 		base := x.val(fr, ins.X)
@@ -82,6 +101,9 @@ func (x *Exec) step(fr *Frame, ins ssa.Instruction, st *State) []alt {
 		}
 		if ins.High != nil {
 			hi = x.val(fr, ins.High)
+		}
+		if bc, ok := x.C.(BoundsClient); ok {
+			bc.OnBounds(x, st, fr, ins, "slice", base, lo, hi)
 		}
 		return one(st, mk("subslice", "", ins.Type(), base, lo, hi))
 	case *ssa.UnOp:
@@ -431,6 +453,46 @@ func addressLike(t *Term) bool {
 		return isPointerTerm(t)
 	}
 	return false
+}
+
+func intInfo(t types.Type, sizes types.Sizes) (bits int, signed bool, ok bool) {
+	b, isB := t.Underlying().(*types.Basic)
+	if !isB || b.Info()&types.IsInteger == 0 {
+		return 0, false, false
+	}
+	bits = int(sizes.Sizeof(t)) * 8
+	return bits, b.Info()&types.IsUnsigned == 0, true
+}
+
+// strictConvert returns nil when the conversion preserves the value for
+// every possible operand, and an opaque conv term otherwise.
+func (x *Exec) strictConvert(st *State, v *Term, from, to types.Type) *Term {
+	sizes := x.P.Main.TypesSizes
+	fb, fs, ok1 := intInfo(from, sizes)
+	tb, ts, ok2 := intInfo(to, sizes)
+	if !ok1 || !ok2 {
+		return nil
+	}
+	switch {
+	case fs == ts && tb >= fb:
+		return nil
+	case !fs && ts && tb > fb:
+		return nil // unsigned into a wider signed type
+	case fs && !ts && tb >= fb:
+		// signed into unsigned: value preserving for non-negative operands
+		if v.Op == "len" || (v.isConst() && !strings.HasPrefix(v.Aux, "-")) {
+			return nil
+		}
+	}
+	if v.isConst() {
+		return nil
+	}
+	if cc, ok := x.C.(interface {
+		SafeConv(x *Exec, st *State, v *Term, fromBits int, fromSigned bool, toBits int, toSigned bool) bool
+	}); ok && cc.SafeConv(x, st, v, fb, fs, tb, ts) {
+		return nil
+	}
+	return mk("conv", types.TypeString(to, nil)+"<-"+types.TypeString(from, nil), to, v)
 }
 
 func isPointerTerm(t *Term) bool {
